@@ -26,7 +26,7 @@ ASSUMPTIONS = [
     'full-outer extra rows and deduplication output are compared as multisets (their order is not documented)',
     'a joined field that reuses an existing target field name has the same type',
 ]
-BUDGET = {'quick': dict(examples=1600, shards=8, seconds=70),
+BUDGET = {'quick': dict(examples=3200, shards=16, seconds=70),
           'thorough': dict(examples=100000, shards=16, seconds=1200)}
 
 KEY_STR = ['a', 'b', 'a:b', 'c', 'b:c', '', 'None', 'é']
